@@ -11,6 +11,7 @@
 #include <cstring>
 #include <rime_api.h>
 #include <rime/common.h>
+#include <rime/verif_deploy_hooks.h>
 
 namespace rime {
 
@@ -143,10 +144,12 @@ T* MappedFile::Allocate(size_t count) {
     size_t new_size = (std::max)(used_space + required_space, file_size * 2);
     if (!Resize(new_size) || !OpenReadWrite())
       return NULL;
+    RIME_VERIF_CRASHPOINT("MappedFile::Allocate:grown");
   }
   T* ptr = reinterpret_cast<T*>(address() + used_space);
   std::memset(ptr, 0, required_space);
   size_ = used_space + required_space;
+  RIME_VERIF_CRASHPOINT("MappedFile::Allocate:zeroed");
   return ptr;
 }
 
